@@ -81,6 +81,46 @@ AllRows(i) == IF i > Len(FormatSeq) THEN <<>> ELSE RowsOf(FormatSeq[i]) \o AllRo
 
 ASSUME Variants = 0 \/ ndJsonSerialize("rows.ndjson", AllRows(1))
 
+\* ---------------------------------------------------------------- history pairs
+\* Decoding is a function of the bytes: it may depend neither on what the decoder (or any
+\* other decoder instance) decoded before, nor may a later decode change an instruction that
+\* was already returned.  HistPairs enumerates, for every inline constant code c and every
+\* pair (use of c as a 64-bit operand, use of c as a 32-bit operand), the two descriptions and
+\* their encodings; the driver decodes a, b on one instance, re-reads both returned
+\* instructions, decodes b, a on another instance and re-reads again - every observation
+\* must be the description written here.
+U(f, fv, k) == [f |-> f, fv |-> fv, k |-> k]
+V3(op) == [vdst |-> 4, abs |-> 0, opsel |-> 0, clamp |-> 0, src0 |-> 258, src1 |-> 260, src2 |-> 262, omod |-> 0, neg |-> 0, op |-> op]
+V3b(op) == [vdst |-> 4, sdst |-> 106, clamp |-> 0, src0 |-> 258, src1 |-> 260, src2 |-> 262, omod |-> 0, neg |-> 0, op |-> op]
+Use64 == << U("sop2", [ssrc0 |-> 2, ssrc1 |-> 4, sdst |-> 6, op |-> 13], "ssrc0"),      \* s_and_b64
+            U("sop2", [ssrc0 |-> 2, ssrc1 |-> 4, sdst |-> 6, op |-> 13], "ssrc1"),
+            U("sop1", [ssrc0 |-> 2, sdst |-> 6, op |-> 1], "ssrc0"),                     \* s_mov_b64
+            U("vop1", [src0 |-> 258, vdst |-> 4, op |-> 15], "src0"),                    \* v_cvt_f32_f64
+            U("vopc", [src0 |-> 258, vsrc1 |-> 4, op |-> 97], "src0"),                   \* v_cmp_lt_f64
+            U("vop3a", V3(460), "src2"), U("vop3a", V3(640), "src0"), U("vop3a", V3(97), "src1"),   \* v_fma_f64, v_add_f64, v_cmp_lt_f64
+            U("vop3b", V3b(481), "src1") >>                                               \* v_div_scale_f64
+Use32 == << U("sop2", [ssrc0 |-> 2, ssrc1 |-> 4, sdst |-> 6, op |-> 0], "ssrc1"),       \* s_add_u32
+            U("sop1", [ssrc0 |-> 2, sdst |-> 6, op |-> 0], "ssrc0"),                     \* s_mov_b32
+            U("sopc", [ssrc0 |-> 2, ssrc1 |-> 4, op |-> 0], "ssrc0"),                    \* s_cmp_eq_i32
+            U("vop1", [src0 |-> 258, vdst |-> 4, op |-> 1], "src0"),                     \* v_mov_b32
+            U("vop2", [src0 |-> 258, vsrc1 |-> 1, vdst |-> 4, op |-> 1], "src0"),        \* v_add_f32
+            U("vopc", [src0 |-> 258, vsrc1 |-> 4, op |-> 65], "src0"),                   \* v_cmp_lt_f32
+            U("vop3a", V3(449), "src0"), U("vop3a", V3(449), "src2"),                    \* v_mad_f32
+            U("vop3b", V3b(480), "src2") >>                                               \* v_div_scale_f32
+ConstCodes == <<128, 129, 192, 193, 208, 240, 241, 242, 243, 244, 245, 246, 247, 248>>
+UseDesc(u, c) == Decode(AsmFields(u.f, [u.fv EXCEPT ![u.k] = c], <<0, 0>>), FALSE)
+HistRec(i, j, n) ==
+  LET da == UseDesc(Use64[i], ConstCodes[n])
+      db == UseDesc(Use32[j], ConstCodes[n])
+  IN [k |-> IF da.k = "inst" /\ db.k = "inst" THEN "pair" ELSE "und", c |-> 0,
+      a |-> IF da.k = "inst" THEN Encode(da) ELSE <<>>, wa |-> da,
+      b |-> IF db.k = "inst" THEN Encode(db) ELSE <<>>, wb |-> db]
+NP == Len(Use64) * Len(Use32)
+HistPairs == [x \in 1..(NP * Len(ConstCodes)) |->
+                LET y == (x - 1) % NP IN
+                HistRec((y \div Len(Use32)) + 1, (y % Len(Use32)) + 1, ((x - 1) \div NP) + 1)]
+ASSUME Variants = 0 \/ ndJsonSerialize("hist.ndjson", HistPairs)
+
 \* ------------------------------------------------------------- random programs
 ProgFormats == {"sop2", "sopk", "sop1", "sopc", "sopp", "smem", "vop2", "vop1", "vopc", "vop3a", "vop3b", "ds", "flat"}
 SInit == Init /\ act = "Init"
